@@ -136,10 +136,18 @@ Definition wr (b : list Z) (off : Z) (bs : list Z) : option (list Z) :=
 Definition flat_group_size (d : dim) (n bl : Z) : option Z :=
   obind (cmul SIZE_T (d_bl_t d) n bl) (fun p => cadd SIZE_T SIZE_T (d_size d) p).
 
+(* size_bytes of a level without groups and data (generated
+   `{hdr} + static_cast<std::size_t>(blockLength)`): header + wire blockLength
+   in size_t *)
+Definition flat_level_size (hdr bl : Z) : option Z := cadd SIZE_T SIZE_T hdr bl.
+
 Module LegacyMsg.
   Definition flat_group_size (d : dim) (n bl : Z) : option Z :=
     obind (cmul (d_n_t d) (d_bl_t d) n bl) (fun p =>
     cadd SIZE_T (uac (d_n_t d) (d_bl_t d)) (d_size d) p).
+  (* before 4be05dc: `{hdr} + blockLength`, an int literal plus the header's
+     blockLength type: wraps at 2^32 for uint32 *)
+  Definition flat_level_size (t : ity) (hdr bl : Z) : option Z := cadd I32 t hdr bl.
 End LegacyMsg.
 
 (* end position of <data> members laid out one after another from [pos] *)
@@ -235,7 +243,7 @@ Definition entry_pos (be : bool) (b : list Z) (fuel : nat) (d : dim) (l : level)
    (hdr = header size for messages, 0 for entries) *)
 Definition level_size_bytes (be : bool) (b : list Z) (fuel : nat) (l : level)
   (view hdr bl : Z) : option Z :=
-  if is_flat l then Some (hdr + bl)
+  if is_flat l then flat_level_size hdr bl
   else obind (level_end be b fuel l (view + hdr) bl) (fun e => Some (e - view)).
 
 (* ---- message-level entry points ---- *)
